@@ -300,7 +300,7 @@ var kC17Y = run.NewKind("c17.yaml", func(c *run.Ctx, t c17YCase) *run.Fail {
 			return &run.Fail{Sig: sig, Detail: fmt.Sprintf("%s\nline %d reported; the faulty document starts on line %d and the fault is detected no later than line %d\nstderr: %s",
 				where, rep.Line, docStart+1, hi, run.Clip(c17Stderr(res.Stderr)))}
 		}
-		T := all[rep.Line-1]
+		T := strings.ReplaceAll(all[rep.Line-1], "\t", " ") // tabs are shown as single spaces (see c17Judge)
 		okPos := false
 		for s := 0; s+len(rep.Excerpt) <= len(T); s++ {
 			if T[s:s+len(rep.Excerpt)] != rep.Excerpt {
